@@ -751,6 +751,73 @@ def rule_borrowed(ctx, F):
         pass
 
 
+# ------------------------------------------------------------------------------------------------
+# R1: a reference taken is a reference kept (stack.c)
+# ------------------------------------------------------------------------------------------------
+RETAINERS = {"ts_subtree_retain": 0, "stack_node_retain": 0}
+RETAIN_FILES = ("lib/src/stack.c",)
+
+
+class KeptMonitor(Monitor):
+    """m = (retained on this path, stored on this path).  At function exit a retained-but-never-stored reference is a leak."""
+
+    def __init__(self, fn, retain_pts, roots):
+        self.fn, self.ret, self.roots = fn, set(retain_pts), roots
+
+    def elem(self, m, pt, e, s):
+        r, k = m
+        if pt in self.ret:
+            r = True
+        for n in own_walk(e):
+            if n.get("k") == "assign" and strip(n["l"]).get("k") in ("mem", "idx") and any(x.get("k") == "ref" and x.get("id") in self.roots for x in walk(n["r"])):
+                k = True
+            if n.get("k") == "ret" and n.get("e") is not None and any(x.get("k") == "ref" and x.get("id") in self.roots for x in walk(n["e"])):
+                k = True
+            if n.get("k") == "init" and any(x.get("k") == "ref" and x.get("id") in self.roots for x in walk(n)):
+                k = True          # a compound literal holding the reference (it is pushed / stored as a whole)
+        return (r, k)
+
+    def exit(self, m, bid, s):
+        if m[0] and not m[1]:
+            return Viol("takes a reference that it does not store anywhere on this path")
+        return None
+
+
+def rule_kept(ctx, F):
+    """R1: in the parse stack, every retain is there because the reference is put somewhere: on each path through a
+    ts_subtree_retain / stack_node_retain of a local value, that value (or the struct it is part of) is stored into a
+    node, a head or a slice, or returned.  A retain on a path that drops the value (e.g. when a node's link array is
+    already full) is never balanced by a release: stack nodes and subtrees survive ts_parser_delete."""
+    from taint import root_var
+    n = 0
+    for fn in F.fn_list:
+        if fn.file not in RETAIN_FILES or not fn.blocks:
+            continue
+        groups = {}
+        for pt, c in fn.calls():
+            nm = callee_name(c)
+            if nm in RETAINERS and len(c.get("a", [])) > RETAINERS[nm]:
+                a = c["a"][RETAINERS[nm]]
+                rv = root_var(a)
+                # a value read through a pointer (head->node, *slot) already lives in the structure that owns it
+                in_memory = any((x.get("k") == "mem" and x.get("arrow")) or (x.get("k") == "un" and x.get("op") == "*") or x.get("k") == "idx" for x in walk(a))
+                if rv is not None and not in_memory:
+                    groups.setdefault(rv, []).append(pt)
+        fn.defs(0)
+        for rv, pts in sorted(groups.items()):
+            n += len(pts)
+            nm = fn._names.get(rv, "?")
+            sr = Search(fn, KeptMonitor(fn, pts, {rv}), budget=2000000)
+            v = sr.run((False, False))
+            key = "%s:%s" % (fn.name, nm)
+            if v is None:
+                ctx.ok("R1", key, "every path that retains `%s` also stores it (%d retain site(s), %d states)" % (nm, len(pts), sr.states), sample={"function": fn.name, "sites": [fn.loc(p) for p in pts]} if n <= 4 else None)
+            else:
+                ctx.bad("R1", key, "%s %s (`%s`, retained at %s): the reference is never released — a leak that outlives ts_parser_delete" % (fn.name, v.msg, nm, ", ".join(fn.loc(p) for p in pts)),
+                        {"function": fn.name, "path": sr.render_path(v.path)[-6:] if v.path else []})
+    ctx.floor("retain calls of local values in stack.c", n, 5)
+
+
 def run(ctx):
     for cfg in configs(ctx):
         ctx.config = cfg
@@ -764,6 +831,7 @@ def run(ctx):
         rule_p1(ctx, F)
         rule_a1(ctx, F)
         rule_borrowed(ctx, F)
+        rule_kept(ctx, F)
         # "freed exactly once": a clone must own its own copy of what release frees per node (shared with C08.P2)
         import C08
         C08.rule_p2(ctx, F)
